@@ -55,6 +55,11 @@ func (e *Engine) verifyFunction(fn *ssa.Function, opt *Options) *FuncResult {
 				res.Fatal = append(res.Fatal, fmt.Sprintf("assert %s (%s): call %s#%d not found", ac.Label, ac.Where, ac.Callee, ac.N))
 			}
 		}
+		for _, gs := range t.own.GhostSets {
+			if !t.ghostSetSeen[gs.Label] {
+				res.Fatal = append(res.Fatal, fmt.Sprintf("ghostset %s (%s): attachment point %s%s#%d not found", gs.Label, gs.Where, gs.Store, gs.Callee, gs.N))
+			}
+		}
 	}
 	res.Abstracted = t.abstracted
 	for k := range t.unknownCallees {
